@@ -121,7 +121,8 @@ def run(chk: Check) -> None:
         creates: Set[str] = set()
         for f in c.emethods.values():
             for x in calls_in_func(f, 'create_stepper'):
-                r = receiver_text(x)
+                from ..rules import Resolver as _Rcs
+                r = norm(_Rcs(f).expand(x.func.value)) if isinstance(x.func, ast.Attribute) else ''   # (``chosen = self._ifs[self._pos]`` ; ``chosen.body.create_stepper``)
                 if f.name == '__init__':
                     # position is 0 at construction: [0] is [self._pos]
                     pos0 = any(isinstance(n, (ast.Assign, ast.AnnAssign)) and norm(n.targets[0] if isinstance(n, ast.Assign) else n.target) == 'self._pos'
